@@ -59,5 +59,7 @@ fn parse_comment<'n>(node: Node<'n, 'n>) -> Option<String> {
 }
 
 pub fn xml_name_to_rust_name(xml_name: &str) -> String {
-    to_pascal_case(xml_name)
+    let rust_name = to_pascal_case(xml_name);
+    // the only keyword that survives PascalCase; it cannot be a raw identifier either
+    if rust_name == "Self" { "Self_".to_string() } else { rust_name }
 }
